@@ -170,6 +170,14 @@ template <class T> static void dualquat(pbt::Ctx& c) {
 		if (!bits_q(Pl.real, a) || !bits_q(Pl.dual, ad)) c.failk(key<T>("+dualquat", "identity"), "+dq changed the value");
 		DQ t = D1; t *= s; if (!eqq(t.real, a.w * s, a.x * s, a.y * s, a.z * s) || !eqq(t.dual, ad.w * s, ad.x * s, ad.y * s, ad.z * s)) c.failk(key<T>("dualquat*=scalar", "component-wise"), "dq*=s is not component-wise");
 		t = D1; t /= s; if (!eqq(t.real, a.w / s, a.x / s, a.y / s, a.z / s) || !eqq(t.dual, ad.w / s, ad.x / s, ad.y / s, ad.z / s)) c.failk(key<T>("dualquat/=scalar", "component-wise"), "dq/=s is not component-wise");
+		{  // conversion constructors: another qualifier (same element type) and the other element type keep both parts in place
+			glm::tdualquat<T, glm::mediump> Mq(D1); glm::tdualquat<T, glm::lowp> Lq(Mq); DQ back(Lq);
+			if (!bits_q(back.real, a) || !bits_q(back.dual, ad)) c.failk(key<T>("dualquat(dualquat<T,P>)", "qualifier-conversion"), "converting dq through mediump and lowp changed it: real %s dual %s, expected real %s dual %s", gq(back.real).c_str(), gq(back.dual).c_str(), gq(a).c_str(), gq(ad).c_str());
+			typedef typename std::conditional<std::is_same<T, float>::value, double, float>::type UT;
+			glm::tdualquat<UT, glm::defaultp> Uq(D1);
+			if (!fp::same_value((T)Uq.real.w, (T)(UT)a.w) || !fp::same_value((T)Uq.real.x, (T)(UT)a.x) || !fp::same_value((T)Uq.real.z, (T)(UT)a.z) || !fp::same_value((T)Uq.dual.w, (T)(UT)ad.w) || !fp::same_value((T)Uq.dual.y, (T)(UT)ad.y) || !fp::same_value((T)Uq.dual.z, (T)(UT)ad.z))
+				c.failk(key<T>("dualquat(dualquat<U,Q>)", "element-type-conversion"), "converting dq to the other element type moved components: real.w %g dual.w %g, expected %g %g", (double)Uq.real.w, (double)Uq.dual.w, (double)a.w, (double)ad.w);
+		}
 		DQ e = D1;
 		if (!(e == D1) || (e != D1)) c.failk(key<T>("dualquat==dualquat", "reflexive"), "dq == dq is false");
 		int k = (int)c.draw(8);
